@@ -120,4 +120,83 @@ Theorem C02_next_power_2_least : forall v, 1 <= v ->
 Proof. exact next_power_2_nat_least. Qed.
 Print Assumptions C02_next_power_2_least.
 
-(* creators-level theorems: to be added from Proofs/CreatorsProofs.v *)
+(* ---------------------------------------------------------------------------------------------- *)
+(* creator level (Model/Creators.v, tied to torrent.py byte for byte by the unit correspondence of        *)
+(* harness/props/creators_common.py).  [v2_capable_output H1 H256 B pl o name t m]: m is the dictionary   *)
+(* written for payload t by TorrentFileV2, TorrentAssembler (meta version 2), TorrentFileHybrid or        *)
+(* TorrentAssembler (meta version 3).  A payload is a [node] whose directory entries are in ENUMERATION   *)
+(* order; [wf_node] = names distinct, non-empty and separator-free per directory; [files_of rel t] = every *)
+(* file under t, once, as (path components, content); [sort_tree] = every directory in ascending name      *)
+(* order; [leaves_v [] ft] = the leaves of a file tree in dictionary order as (path, dictionary under the *)
+(* "" key); [layers_of m] = the top-level "piece layers" dictionary.                                      *)
+(* ---------------------------------------------------------------------------------------------- *)
+From TF Require Import Model.Bencode Model.Creators Proofs.CreatorsProofs Proofs.CreatorsProofs2 Proofs.CreatorsProps.
+
+(* info["file tree"] mirrors the directory: its leaves, in dictionary order, are exactly the files of the tree in
+   per-directory sorted order, each holding {"length": size[, "pieces root": BEP 52 root]} ([leaf_value]) *)
+Theorem C02_tree_mirrors_disk : forall (H1 H256 : bytes -> bytes) B, 0 < B -> forall k pl, pl = B * 2 ^ k ->
+  forall o name es m, wf_node (Dir es) -> v2_capable_output H1 H256 B pl o name (Dir es) m ->
+  exists ft, info_get k_file_tree m = Some ft /\
+    leaves_v [] ft = map (fun f => (fst f, leaf_value H256 B (snd f))) (files_of [] (sort_tree (Dir es))).
+Proof. exact file_tree_mirrors_disk. Qed.
+Print Assumptions C02_tree_mirrors_disk.
+
+(* every non-empty file is a leaf at its path with its exact length and the BEP 52 merkle root of its content *)
+Theorem C02_root_is_bep52 : forall (H1 H256 : bytes -> bytes) B, 0 < B -> forall k pl, pl = B * 2 ^ k ->
+  forall o name es m p (d : bytes), wf_node (Dir es) -> v2_capable_output H1 H256 B pl o name (Dir es) m ->
+  In (p, d) (files_of [] (Dir es)) -> d <> [] ->
+  exists ft, info_get k_file_tree m = Some ft /\
+    In (p, BDict [(k_length, BInt (Z.of_nat (length d))); (k_pieces_root, BStr (bep52_root H256 B d))])
+       (leaves_v [] ft).
+Proof. exact file_tree_root_is_bep52. Qed.
+Print Assumptions C02_root_is_bep52.
+
+(* an empty file is a leaf with length 0 and no "pieces root" key *)
+Theorem C02_empty_has_no_root : forall (H1 H256 : bytes -> bytes) B, 0 < B -> forall k pl, pl = B * 2 ^ k ->
+  forall o name es m p, wf_node (Dir es) -> v2_capable_output H1 H256 B pl o name (Dir es) m ->
+  In (p, []) (files_of [] (Dir es)) ->
+  exists ft, info_get k_file_tree m = Some ft /\ In (p, BDict [(k_length, BInt 0)]) (leaves_v [] ft).
+Proof. exact file_tree_empty_has_no_root. Qed.
+Print Assumptions C02_empty_has_no_root.
+
+(* single-file payload: the tree is {name: {"": leaf}} *)
+Theorem C02_single_file_tree : forall (H1 H256 : bytes -> bytes) B, 0 < B -> forall k pl, pl = B * 2 ^ k ->
+  forall o name (d : bytes) m, v2_capable_output H1 H256 B pl o name (File d) m ->
+  info_get k_file_tree m = Some (BDict [(name, BDict [(k_empty, leaf_value H256 B d)])]).
+Proof. exact file_tree_single_file. Qed.
+Print Assumptions C02_single_file_tree.
+
+(* piece layers, "<-": every file larger than the piece length has its root as a key, bound to the BEP 52 piece
+   layer of a file with that root (itself -- unless another file has the same root: identical files share one entry) *)
+Theorem C02_layers_has_every_big_file : forall (H1 H256 : bytes -> bytes) B, 0 < B -> forall k pl, pl = B * 2 ^ k ->
+  forall o name t m p (d : bytes), wf_node t -> v2_capable_output H1 H256 B pl o name t m ->
+  In (p, d) (files_of (root_rel t) t) -> pl < length d ->
+  exists p' d', In (p', d') (files_of (root_rel t) t) /\ pl < length d' /\
+    bep52_root H256 B d' = bep52_root H256 B d /\
+    lookup (bep52_root H256 B d) (layers_of m) = Some (BStr (concat (bep52_piece_layer H256 B k d'))).
+Proof. exact piece_layers_has. Qed.
+Print Assumptions C02_layers_has_every_big_file.
+
+(* piece layers, "->": every entry is (root, concatenated BEP 52 piece layer) of a file larger than the piece
+   length -- no entry for a file of at most one piece, none for anything that is not a file of the tree *)
+Theorem C02_layers_only_big_files : forall (H1 H256 : bytes -> bytes) B, 0 < B -> forall k pl, pl = B * 2 ^ k ->
+  forall o name t m r v, wf_node t -> v2_capable_output H1 H256 B pl o name t m -> In (r, v) (layers_of m) ->
+  exists p d, In (p, d) (files_of (root_rel t) t) /\ pl < length d /\
+              r = bep52_root H256 B d /\ v = BStr (concat (bep52_piece_layer H256 B k d)).
+Proof. exact piece_layers_only. Qed.
+Print Assumptions C02_layers_only_big_files.
+
+(* both directions as one equivalence, when no two files larger than a piece have equal roots but different
+   layers (a SHA-256 collision; identical files satisfy the hypothesis) *)
+Theorem C02_layers_exact : forall (H1 H256 : bytes -> bytes) B, 0 < B -> forall k pl, pl = B * 2 ^ k ->
+  forall o name t m, wf_node t -> v2_capable_output H1 H256 B pl o name t m ->
+  (forall p1 d1 p2 d2, In (p1, d1) (files_of (root_rel t) t) -> In (p2, d2) (files_of (root_rel t) t) ->
+     pl < length d1 -> pl < length d2 -> bep52_root H256 B d1 = bep52_root H256 B d2 ->
+     bep52_piece_layer H256 B k d1 = bep52_piece_layer H256 B k d2) ->
+  forall r v, In (r, v) (layers_of m) <->
+    exists p d, In (p, d) (files_of (root_rel t) t) /\ pl < length d /\
+                r = bep52_root H256 B d /\ v = BStr (concat (bep52_piece_layer H256 B k d)).
+Proof. exact piece_layers_exact. Qed.
+Print Assumptions C02_layers_exact.
+
+(* (the recorded layer has one hash per piece that contains data: C02_layer_omits_padding above) *)
